@@ -210,17 +210,49 @@ func c18Bodies(sh *bodies.Shared, sc c18Scenario) func() []func() string {
 	}
 }
 
+// c18Baseline is the census of the package-level variables taken before the
+// harness calls anything of ivg (lazily filled caches must not be warmed first).
+var c18Baseline []uint64
+var c18BaselineCensus *census
+
+func c18TakeBaseline() {
+	if c18BaselineCensus == nil {
+		c18BaselineCensus = newCensus(&bodies.Shared{})
+		c18Baseline = c18BaselineCensus.perVar()
+	}
+}
+
+func c18BaselineChanged() string {
+	now := c18BaselineCensus.perVar()
+	for i := range now {
+		if now[i] != c18Baseline[i] {
+			return c18BaselineCensus.names[i]
+		}
+	}
+	return ""
+}
+
 func c18Run(w *mc.W, sc c18Scenario, stripe int) {
+	c18TakeBaseline()
 	sh := bodies.NewShared()
 	cen := newCensus(sh)
+	shHash := sh.Hash()
 	// solo results (no scheduler)
 	solo := make([]string, len(sc.Bodies))
+	soloSh := bodies.NewShared()
 	for i, b := range sc.Bodies {
-		solo[i] = bodies.Bodies[b].Run(sh, sc.Graphics[i])
+		solo[i] = bodies.Bodies[b].Run(soloSh, sc.Graphics[i])
+	}
+	if v := c18BaselineChanged(); v != "" || soloSh.Hash() != shHash {
+		if v == "" {
+			v = "shared input (source slice or palette)"
+		}
+		w.Fail("shared-state-written:"+v, fmt.Sprintf("scenario %s: running the bodies alone, one after the other, already writes %s (a package-level variable or shared input changed since process start)", sc, v), c18Case{Kind: "schedule", Scenario: sc})
+		return
 	}
 	start := cen.hash()
 	per := cen.perVar()
-	w.Count("census_variables", int64(len(cen.vars)))
+	w.CountMax("census_variables", int64(len(cen.vars)))
 	mk := c18Bodies(sh, sc)
 	// determinism: the deviation-free schedule twice
 	if stripe == 0 {
@@ -295,12 +327,17 @@ func c18Run(w *mc.W, sc c18Scenario, stripe int) {
 }
 
 func c18Replay(w *mc.W, cs *c18Case) {
+	c18TakeBaseline()
 	sh := bodies.NewShared()
 	cen := newCensus(sh)
 	sc := cs.Scenario
 	solo := make([]string, len(sc.Bodies))
 	for i, b := range sc.Bodies {
 		solo[i] = bodies.Bodies[b].Run(sh, sc.Graphics[i])
+	}
+	if v := c18BaselineChanged(); v != "" {
+		w.Fail("shared-state-written:"+v, v+" was written by a sequential run", cs)
+		return
 	}
 	start := cen.hash()
 	per := cen.perVar()
